@@ -254,6 +254,23 @@ class C05(Property):
             cplan = [f for f in plan if f["kind"] != "partial"]
             if cplan and len(cplan) == len(plan):
                 do(chan_case(cplan), first)
+        # (b2) two damages that only matter together: a value lost after
+        # '=' and the text ending a few tokens later (inside the block, or
+        # right after the next assignment)
+        vals = [i for i, t in enumerate(toks[:live])
+                if t.role == "value" and i + 2 < n]
+        for _ in range(4 if vals else 0):
+            i = rng.choice(vals)
+            j = min(n - 1, i + rng.choice([2, 3, 4, 4, 5, 7]))
+            plan = [{"kind": "drop", "at": i}, {"kind": "eof", "at": j}]
+            out.inc("fault.text-drop")
+            out.inc("fault.text-eof")
+            out.inc("probe.value-lost-then-text-ends")
+            if note("drop", i):
+                out.nontrivial = True
+            do(text_case(e1.apply_plan(toks, plan)), i)
+            do(chan_case(plan), i)
+
         # (c) a very long token (a long description, an embedded table):
         # well-formed, every later statement must still be there; torn, the
         # load must raise.  Sizes straddle 2**15 and 2**16.
